@@ -180,6 +180,33 @@ def run_compound(rng):
     return None
 
 
+def run_topo_empty(rng):
+    """TopoART histories whose last pruning round removes every category (legal: tau = n, nothing reaches phi),
+    then predict / fit again / predict: all must be total (predict labels -1 while nothing survives)"""
+    import artlib
+    n = rng.randrange(2, 7)
+    d = rng.choice([1, 2])
+    raw = np.array([[(i + 0.5) / n if j == 0 else rng.random() for j in range(d)] for i in range(n)])
+    X = np.hstack([raw, 1.0 - raw])
+    rho = rng.choice([0.99, 0.999, 1.0])
+    phi = min(rng.choice([2, 3]), n)          # validate_params requires tau >= phi
+    rep = {"estimator": "TopoART(FuzzyART)", "rho": rho, "tau": n, "phi": phi, "X": X.tolist(),
+           "how": "fit(X); predict(X); partial_fit(X[:1]); predict(X)"}
+    try:
+        with np.errstate(all="ignore"), contextlib.redirect_stdout(io.StringIO()):
+            est = artlib.TopoART(artlib.FuzzyART(rho=rho, alpha=1e-3, beta=1.0), beta_lower=0.5, tau=n, phi=phi)
+            est.fit(X)
+            empty = len(est.W) == 0
+            p = est.predict(X)
+            if empty and any(int(v) != -1 for v in p):
+                return {"signature": "TopoART/empty-predict", "text": "no category survived but predict returned a category label", "replay": rep}, empty
+            est.partial_fit(X[:1])
+            est.predict(X)
+    except Exception as e:
+        return {"signature": "TopoART/exception", "text": f"TopoART after a round that removed every category: {type(e).__name__}: {str(e)[:100]}", "replay": rep}, True
+    return None, empty
+
+
 def main():
     tier = sys.argv[1] if len(sys.argv) > 1 else "quick"
     seed = C.seed_from_env()
@@ -197,6 +224,12 @@ def main():
     nc = 250 if tier == "quick" else 2500
     for _ in range(nc):
         f = run_compound(rng)
+        if f:
+            fails.append(f)
+    n_empty = 0
+    for _ in range(40 if tier == "quick" else 400):
+        f, was_empty = run_topo_empty(rng)
+        n_empty += 1 if was_empty else 0
         if f:
             fails.append(f)
     # defined-ness of kernel outputs vs the model (reuses the direct-call correspondence)
@@ -219,7 +252,7 @@ def main():
         "rule": "legal extremes for all eight modules (rho in {0,1}, alpha in {0,1e-10}, beta in {0,1}, tiny r_hat/mu, huge L; quantised grids, duplicated and constant data), "
                 "bare / two partial_fit batches / SimpleARTMAP A-side, all modes; plus compound-estimator histories; non-trivial = distinct configuration+data",
         "traces_validated_against_impl": sum(1 for x in codes if x == 0),
-        "distribution": {"kinds": kinds, "compound": nc}, "samples": reps[:1]})
+        "distribution": {"kinds": kinds, "compound": nc, "topoart_histories_ending_with_no_category": n_empty}, "samples": reps[:1]})
     v.assumptions = ["overflow / underflow / cancellation-induced sqrt of a tiny negative are binary64 phenomena the exact model cannot exhibit (watched on the implementation only)",
                      "third-party routines (np.linalg, sklearn validation) are exercised, not modelled beyond Mat.v"]
     sys.exit(v.finish())
